@@ -23,8 +23,8 @@ import (
 
 type wgInput struct {
 	Model  *gen.Model `json:"model"`
-	Orders [][]string `json:"orders,omitempty"` // hook orders as reference node ids (non-terminal nodes)
-	Text   string     `json:"text,omitempty"`   // human readable form of the model
+	Orders [][]string `json:"orders,omitempty"`      // hook orders as reference node ids (non-terminal nodes)
+	Text   string     `json:"text,omitempty"`        // human readable form of the model
 	Prior  *gen.Model `json:"prior_model,omitempty"` // built first with the same builder value (the graph is a function of the model, not of the builder's history)
 }
 
@@ -731,6 +731,25 @@ func wgClasses(res *wgResult, m *gen.Model) []string {
 	if ops > 0 {
 		cls = append(cls, "model:has-operator")
 	}
+	twins := false
+	for _, t := range m.Types {
+		for _, r := range t.Rels {
+			r.Rw.Walk(func(x *gen.Rewrite, _ int) {
+				seen := map[string]bool{}
+				for _, k := range x.Kids {
+					if k.IsOp() {
+						if seen[k.Kind] {
+							twins = true
+						}
+						seen[k.Kind] = true
+					}
+				}
+			})
+		}
+	}
+	if twins {
+		cls = append(cls, "model:same-kind-sibling-operators")
+	}
 	if wild > 0 {
 		cls = append(cls, "model:has-wildcard")
 	}
@@ -849,5 +868,58 @@ func wgSmallModel(defs []smallDef, idx int) *gen.Model {
 			{Name: "a", Rw: da.rw.Clone(), Restr: append([]gen.Restriction(nil), da.restr...)},
 			{Name: "b", Rw: db.rw.Clone(), Restr: append([]gen.Restriction(nil), db.restr...)},
 		}},
+	}}
+}
+
+// ---- second bounded universe: nested operators of the same kind ---------------------------------
+//
+// user, emp; doc with leaf relations u: [user], e: [emp], m: [user, emp], w: [user:*] and the relation
+//
+//	twins   (index <  wgTwinCount):  x = OP0( OP1(l1, l2), OP1(l3, l4) )
+//	cousins (index >= wgTwinCount):  x = OP0( OPa(OPc(l1, l2), l3), OPb(OPc(l4, l5), l6) ), leaves from a 3-letter alphabet
+//
+// with OP* over {union, intersection, exclusion} and the leaves over the four (three) leaf relations: sibling and
+// cousin occurrences of one operator kind are distinct nodes with their own operands, whatever identity scheme the
+// builder uses for operator nodes; whether the intersection operands share a type decides the verdict.
+var wgNestOps = []string{gen.Union, gen.Intersection, gen.Difference}
+var wgNestLeaves = []string{"u", "e", "m", "w"}
+
+const wgTwinCount = 3 * 3 * 4 * 4 * 4 * 4                   // 2304
+const wgCousinCount = 3 * 3 * 3 * 3 * 3 * 3 * 3 * 3 * 3 * 3 // 59049 (3^4 operator choices x 3^6 leaves)
+
+func wgNestedCount() int { return wgTwinCount + wgCousinCount }
+
+func wgNestedModel(idx int) *gen.Model {
+	leaf := func(name string) *gen.Rewrite { return &gen.Rewrite{Kind: gen.Computed, Rel: name} }
+	op := func(kind string, kids ...*gen.Rewrite) *gen.Rewrite { return &gen.Rewrite{Kind: kind, Kids: kids} }
+	var x *gen.Rewrite
+	if idx < wgTwinCount {
+		d := func(n int) int { v := idx % n; idx /= n; return v }
+		op0, op1 := wgNestOps[d(3)], wgNestOps[d(3)]
+		l := []string{wgNestLeaves[d(4)], wgNestLeaves[d(4)], wgNestLeaves[d(4)], wgNestLeaves[d(4)]}
+		x = op(op0, op(op1, leaf(l[0]), leaf(l[1])), op(op1, leaf(l[2]), leaf(l[3])))
+	} else {
+		idx -= wgTwinCount
+		d := func(n int) int { v := idx % n; idx /= n; return v }
+		op0, opa, opb, opc := wgNestOps[d(3)], wgNestOps[d(3)], wgNestOps[d(3)], wgNestOps[d(3)]
+		var l []string
+		for i := 0; i < 6; i++ {
+			l = append(l, wgNestLeaves[d(3)])
+		}
+		x = op(op0, op(opa, op(opc, leaf(l[0]), leaf(l[1])), leaf(l[2])), op(opb, op(opc, leaf(l[3]), leaf(l[4])), leaf(l[5])))
+	}
+	this := func(restr ...gen.Restriction) (*gen.Rewrite, []gen.Restriction) {
+		return &gen.Rewrite{Kind: gen.This}, restr
+	}
+	rel := func(name string, rw *gen.Rewrite, restr []gen.Restriction) gen.Relation {
+		return gen.Relation{Name: name, Rw: rw, Restr: restr}
+	}
+	ru, tu := this(gen.Restriction{Type: "user"})
+	re, te := this(gen.Restriction{Type: "emp"})
+	rm, tm := this(gen.Restriction{Type: "user"}, gen.Restriction{Type: "emp"})
+	rw, tw := this(gen.Restriction{Type: "user", Wild: true})
+	return &gen.Model{Schema: "1.1", Types: []gen.TypeDef{
+		{Name: "user"}, {Name: "emp"},
+		{Name: "doc", Rels: []gen.Relation{rel("u", ru, tu), rel("e", re, te), rel("m", rm, tm), rel("w", rw, tw), rel("x", x, nil)}},
 	}}
 }
